@@ -63,6 +63,7 @@ def plan(tier, seed):
 def run_case(case):
     from joblib import Memory
     warnings.simplefilter("ignore")
+    __import__("logging").disable(50)
     root = tempfile.mkdtemp(prefix="c18_", dir="/dev/shm")
     h = hashlib.sha256(); hs = hashlib.sha256()
     try:
